@@ -54,7 +54,11 @@ func VerifC12Gemtext() {
 		}
 	}
 	width := verifrt.Int("width", 1, verifrt.Param("maxw", 30))
-	out, links := renderWithLinks(lines, width)
+	// through the public interface: the link list the constructor reports and
+	// the text Render shows
+	m, links, err := NewMarkup(strings.Join(lines, "\n"))
+	verifrt.Assert(err == nil && m != nil, "markup-built")
+	out := m.Render(width)
 	sc := verifrt.Parse(out)
 	verifrt.Assert(sc.OK && sc.NeutralAtBreaks(), "render-well-formed-and-neutral")
 	verifrt.Assert(len(links) == len(targets), "one-link-entry-per-link-line")
